@@ -75,4 +75,19 @@ let ch inp impl =
     (m, if ip = List.rev !pouts then "1" else "0")
   | _ -> failwith "ch: bad input"
 
-let () = Registry.register "cc" cc; Registry.register "srv" srv; Registry.register "ch" ch
+(* txreal: what the loopback peer of a really opened client sees *)
+let txreal inp impl =
+  match inp with
+  | scheme :: unit :: e :: w :: optoks ->
+    let cfg = { c_unit = n_of_hex unit; c_endian = endian_of e; c_word = word_of w } in
+    let (framing, kind) = match scheme with
+      | "tcp" -> (FMbap, "tcp") | "udp" -> (FMbap, "udp") | "tcp+tls" -> (FMbap, "tls")
+      | "rtuovertcp" -> (FRtu, "tcp") | "rtuoverudp" -> (FRtu, "udp") | _ -> (FRtu, "serial") in
+    let r = client_call framing cfg N0 (op_of_tokens optoks) Stall [] in
+    let frame = match r.cr_writes with [] -> "none" | f :: _ -> hex_of_bytes f in
+    let res = match r.cr_res with Err EParams -> "params" | _ -> "sent" in
+    let m = Printf.sprintf "%s %s %s" kind frame res in
+    if impl = "skipped:pty" then (impl, "1") else (m, if m = impl then "1" else "0")
+  | _ -> failwith "txreal: bad input"
+
+let () = Registry.register "txreal" txreal; Registry.register "cc" cc; Registry.register "srv" srv; Registry.register "ch" ch
